@@ -23,6 +23,11 @@ claimed = {
    note="Assumed: |Number| and factors below 2^62 (no wrap-around on negation), tag state is one of four values; nmul law nmul(-a,b) = -nmul(a,b) (a true law of multiplication, listed as axiom). Partial claim: see functions_under_contract in the evidence.",
    tech="contract-based deductive verification: semantic spec functions + induction lemmas, own VC generator over go/ssa + z3/cvc5",
    ref="DESIGN.md section 4 (C03)"),
+ "C10": dict(
+   text="Deductive proof of the sequential kernel of a view: (1) the per-stream callback of View.AllStreams invokes the handler for a stored version exactly when no newer index file of the view contains that stream id (loop invariant + ghost log of handler calls), so every visible id is enumerated once, in its newest version; (2) View.Stream returns the version from the newest index containing the id, or nothing if none contains it; (3) replacing a merged run keeps every index before and after the run in order (including files appended while the merge ran); (4) lock/release change nothing but the reference-count table. Completeness with respect to 'reported processed', stability of a view while other jobs run and the hand-off of references across goroutines are not function-contract properties and are not decided.",
+   note="Assumed: the index package's readers (StreamIDs, StreamByID, Stream.ID) relate to the abstract predicate contains(index, id) as stated in their assumed contracts; single-goroutine confinement of manager state (C20's subject); Close/Remove do not touch manager state; run-time checks in View.Stream and the merge completion closure are assumed to pass (nosafety).",
+   tech="contract-based deductive verification: handler-preserves-invariant contracts on closures, ghost call logs, own VC generator over go/ssa + z3/cvc5",
+   ref="DESIGN.md section 4 (C10)"),
  "C14": dict(
    text="Deductive proof of totality facts on the real parser code: the value and term capture functions and the host-mask parser are free of index/slice panics for every token text the grammar can hand them (all inputs, with the token shapes as preconditions) and their loops terminate; every loop of the number-filter and flag-filter simplification (cleanNumberConditions, cleanFlagConditions, including the common-factor search and the 16-bit mask enumerations) terminates, proved with a variant per loop; the sort comparator of tag conditions equals a spec function that is proved to be a strict total order, so the normal form of tag conditions does not depend on map iteration order. Functions of the parser not listed under functions_under_contract in the evidence are not decided by this check; promptness is a complexity claim and is not decided.",
    note="Assumed: participle's lexer/parser is total and delivers tokens matching its patterns (token shapes are preconditions); strings.HasPrefix/HasSuffix/strconv.ParseInt contracts; in the two large simplification functions run-time checks are assumed to pass (nosafety) and each loop is verified from its invariant alone; loop 3 of cleanNumberConditions assumes no factor equals MinInt64.",
